@@ -71,9 +71,9 @@ func quantReenc(tokens string) (out string) {
 		}
 	}()
 	ps := getPackets(NewR(tokens))
-	for _, p := range ps {
+	for i, p := range ps {
 		if x, ok := p.(*rtcp.ExtendedReport); ok {
-			_, _ = x.Marshal()
+			ps[i] = xrCanonHeaders(x) // computed from RFC 3611, not by calling the Marshal under test
 		}
 	}
 	return packetsTokens(ps)
